@@ -245,7 +245,18 @@ class DRYRule(BaseLintRule):  # pylint: disable=too-many-instance-attributes
         self._helpers.inline_ignore.clear()
         self._constants = []
         self._file_contents = {}
+        self._reset_storage()
         return violations
+
+    def _reset_storage(self) -> None:
+        """Release the block storage so that the next run starts from the files it sees."""
+        if self._storage is not None:
+            self._storage.close()
+        self._storage = None
+        self._initialized = False
+        self._config = None
+        self._file_analyzer = None
+        self._project_root = None
 
 
 ConstantExtractorFn = Callable[[str], list[ConstantInfo]]
